@@ -3,6 +3,7 @@ import os
 
 from .. import common as C
 from ..translate import incompat as TR
+from ..translate import verify_kernel as VK
 
 ID = "C17"
 COQ_TARGETS = ["Tie/C17.vo", "Properties/C17.vo"]   # common.coq_make passes -k to make
@@ -14,6 +15,8 @@ THEOREMS = [
     "C17_incompat_none_iff_all_shapes_bind", "C17_admits_iff_binds", "C17_self_stripped_binds",
     "C17_selfless_method_accepted_refuted", "C17_bounded_shapes_suffice", "C17_verify_success_iff", "C17_errors_reported_exactly",
     "C17_outcome_by_failure_count",
+    "C17_generated_verify_element_eq_model", "C17_generated_verify_eq_model",
+    "C17_generated_verify_wrappers_eq_model", "C17_generated_verify_from_method_eq_model",
 ]
 RULE = ("grid: every pair of (required, defaulted, *args, **kwargs) signatures with required, defaulted <= 3 "
         "(4096 pairs) x {function in the instance dict, bound method, verifyClass}, plus every interface signature "
@@ -29,7 +32,12 @@ RULE = ("grid: every pair of (required, defaulted, *args, **kwargs) signatures w
 TRUSTED_BASE = [
     "harness/translate/incompat.py: the abstraction len(x['required']) -> req, len(x['positional']) -> npos, "
     "x['varargs'|'kwargs'] -> 'is a name' (parameter names are non-empty strings) of the fail-closed translator",
-    "hand-written model of _verify/_verify_element/fromFunction arithmetic in Model/Verify.v (validated by this correspondence)",
+    "harness/translate/verify_kernel.py: statement/expression translation of _verify_element, _verify, verifyClass, "
+    "verifyObject, fromMethod into Gallina (try/except AttributeError -> getattr_raises, early return/raise -> "
+    "option err / outcome, the for/try/except-append loop -> collect)",
+    "Model/Verify.v vocabulary: the value of each Python test (isinstance(attr, FunctionType), callable(attr), ...) on "
+    "the candidate description attr_val (validated on every run: the driver classifies the real attribute with the same "
+    "tests), and the hand-written arithmetic of fromFunction (from_function; C18 regenerates fromFunction in its own vocabulary)",
     "inspect.signature(...).bind as the run-time oracle validating Spec/Binds.v admits/binds",
 ]
 ASSUMPTIONS = [
@@ -42,6 +50,8 @@ ASSUMPTIONS = [
 ]
 VERIFY_PY = os.path.join(C.REPO, "src", "zope", "interface", "verify.py")
 GEN = os.path.join(C.COQ, "Gen", "Incompat.v")
+GEN_KERNEL = os.path.join(C.COQ, "Gen", "VerifyKernel.v")
+INTERFACE_PY = os.path.join(C.REPO, "src", "zope", "interface", "interface.py")
 NOT_A_METHOD = "implementation is not a method"
 
 _messages = None
@@ -59,19 +69,28 @@ def _load_messages():
 
 
 def regenerate(run):
-    """Re-translate verify.py:_incompat into coq/Gen/Incompat.v (fail closed)."""
+    """Re-translate verify.py (and interface.py:fromMethod) into coq/Gen/Incompat.v and
+    coq/Gen/VerifyKernel.v (fail closed: a refusal is reported, and the pinned kernel is written so that
+    the correspondence and the Spec oracle can still run)."""
     global _messages
+    errors = []
     try:
         text, msgs = TR.translate_file(VERIFY_PY)
-        _messages = msgs
-        C.write_if_changed(GEN, text)
-        return []
-    except Exception as e:  # noqa: refuse, report, keep the pipeline alive on the pinned kernel
+    except Exception as e:  # noqa
         text, msgs = TR.pinned()
-        _messages = msgs
-        C.write_if_changed(GEN, text)
-        return ["harness/translate/incompat.py refused %s (%s: %s); coq/Gen/Incompat.v holds the pinned kernel, "
-                "so the theorems of Properties/C17.v are NOT about the current source" % (VERIFY_PY, type(e).__name__, e)]
+        errors.append("harness/translate/incompat.py refused %s (%s: %s); coq/Gen/Incompat.v holds the pinned kernel, "
+                      "so the theorems of Properties/C17.v are NOT about the current source" % (VERIFY_PY, type(e).__name__, e))
+    _messages = msgs
+    C.write_if_changed(GEN, text)
+    try:
+        text = VK.translate_files(VERIFY_PY, INTERFACE_PY)
+    except Exception as e:  # noqa
+        text = VK.pinned()
+        errors.append("harness/translate/verify_kernel.py refused %s / %s (%s: %s); coq/Gen/VerifyKernel.v holds the "
+                      "pinned transcription, so the C17_generated_* theorems are NOT about the current source"
+                      % (VERIFY_PY, INTERFACE_PY, type(e).__name__, e))
+    C.write_if_changed(GEN_KERNEL, text)
+    return errors
 
 
 # --------------------------------------------------------------------------- generation
@@ -383,16 +402,17 @@ def replay_text(case, obs, mode):
                "\n".join(cls) or "    pass", case.get("pre", []), obs.get("order"), obs.get("out")))
 
 
-TECHNIQUE = ("Coq proof over a Gallina kernel regenerated from verify._incompat by a fail-closed translator plus a "
-             "model of _verify/_verify_element; vm_compute correspondence with the implementation on the exhaustive "
+TECHNIQUE = ("Coq proof over Gallina kernels regenerated from verify.py (_incompat; _verify_element, _verify, verifyClass, "
+             "verifyObject, fromMethod) by fail-closed translators, proved equal to the model of _verify/_verify_element; vm_compute correspondence with the implementation on the exhaustive "
              "(r,o,*,**)^2 grid; inspect.signature.bind as independent oracle for the Spec")
-LEVEL_TEXT = ("Machine-checked theorems (Properties/C17.v, 8 theorems, closed under the global context) state for all "
+LEVEL_TEXT = ("Machine-checked theorems (Properties/C17.v, 12 theorems, closed under the global context) state for all "
               "signatures with no bound on arities that _incompat (as translated from the current source) accepts exactly "
-              "when every admitted call shape binds, that verification succeeds iff the candidate conforms, and that the "
-              "failures are reported exactly; the model is compared with verifyObject/verifyClass on 12288 grid cases and "
+              "when every admitted call shape binds, that verification succeeds iff the candidate conforms, that the "
+              "failures are reported exactly, and that the model these statements are about equals the Gallina regenerated "
+              "from the current text of _verify_element/_verify/verifyClass/verifyObject/fromMethod for all inputs; the model is compared with verifyObject/verifyClass on 12288 grid cases and "
               "an aggregation stream in both modes, and the raw outcomes are judged in Coq against the brute-force Spec "
               "and against inspect.signature.bind.")
-LEVEL_NOTE = ("Trusted: Coq kernel/vm_compute; the translator's four-field abstraction of the signature dictionaries; the "
-              "hand-written model of _verify_element's isinstance dispatch (validated by the correspondence). Outside the "
+LEVEL_NOTE = ("Trusted: Coq kernel/vm_compute; the two translators; the meaning of the vocabulary predicates on the "
+              "candidate description and the hand-written fromFunction arithmetic (validated by the correspondence). Outside the "
               "judged scope: keyword-only/positional-only parameters, methods with neither self nor *args, staticmethods under verifyClass "
               "(recorded only).")
